@@ -272,6 +272,14 @@ def login(user, password):
     ok = password == "hunter2" and credential["passwd"] == password
     return (ok, token, api_key, API_TOKEN, sorted(credential.items()))
 
+def stream():
+    it = iter([1, 2, 3])                        # one-shot iterators held in locals while the function goes on
+    pairs = zip("ab", [1, 2])
+    squares = (i * i for i in range(3))
+    first = next(it)
+    rest = list(it)
+    return (first, rest, list(pairs), sum(squares))
+
 def fib(n):
     w = Weird(n)
     if n < 2:
@@ -306,6 +314,7 @@ def main():
     out.append((sess.accessed, walked.walks))
     out.append(draws())
     out.append(login("ann", "hunter2"))
+    out.append(stream())
     out.append(counter())
     out.append([Shape(i).area() for i in range(2)])
     ts = [threading.Thread(target=worker, args=(out, k)) for k in range(4)]
@@ -396,11 +405,14 @@ def differential(ctx, n):
             if t is not None:
                 trigs.append(t)
             tdesc.append(dict(line=line, args=args, watches=watches, metrics=len(metrics)))
-        if rng.random() < 0.6:
-            # plain snapshot tracepoints (no watches / log / condition) inside the methods that use cells
-            hot = [i + 1 for i, t in enumerate(lines) if "extra" in t or "count += k" in t or "return count" in t or "self.s = s" in t
-                   or "reply = user.upper()" in t or "return reply" in t or "b = random.randint" in t or "a = random.random()" in t]
-            for hl in rng.sample(hot, rng.choice([1, 2, 3])):
+        # plain snapshot tracepoints (no watches / log / condition) on ALL lines of two groups of the host's functions - run k takes
+        # groups k and k+2 of five, so that every group is visited whatever the random choices above were: the methods that use
+        # cells, the pass-through of the noticing containers, the seeded draws, the credential-named variables, the one-shot iterators
+        groups = [("extra", "count += k", "return count", "self.s = s"), ("reply = user.upper()", "return reply"),
+                  ("b = random.randint", "a = random.random()", "return (a, b"), ("secret = password", "token = ", "api_key = len", "credential = {", "ok = password"),
+                  ("pairs = zip", "squares = (", "first = next(it)", "rest = list(it)", "return (first, rest")]
+        for g in (groups[k % 5], groups[(k + 2) % 5]):
+            for hl in [i + 1 for i, t in enumerate(lines) if any(m in t for m in g)]:
                 trigs.append(build_trigger("tph%d" % hl, base, hl, {"fire_count": rng.choice(["-1", "1"]), "fire_period": "0"}, [], []))
                 tdesc.append(dict(line=hl, args="plain snapshot", watches=[], metrics=0))
         if rng.random() < 0.5:
